@@ -39,6 +39,9 @@ def find_arms():
 
 
 def run(ctx, rep):
+    from ..rules_contract import run_contracts
+    # the fraction handed to Fractional::new (0..=999_999_999, asserted there) is an obligation of every caller
+    run_contracts(ctx, rep, select=lambda f: f.file.startswith("src/fmt/"), floor=10)
     run_dep(ctx, rep, "C15")
     run_loneabs(ctx, rep)
     whole_sign(rep, ctx.prog("Q"))
